@@ -3,11 +3,14 @@ package goeval
 import (
 	"bytes"
 	"fmt"
+	"go/scanner"
+	"go/token"
 	"go/types"
 	"os"
 	"path"
 	"path/filepath"
 	"reflect"
+	"regexp"
 	"sort"
 	"strconv"
 	"strings"
@@ -15,11 +18,18 @@ import (
 	"unicode"
 )
 
+func init() {
+	RegisterReal("go/scanner.Scanner", scanner.Scanner{})
+}
+
 // FSV is an fs.FS rooted at a directory of /repo (an embed.FS variable, or fs.Sub of one).
 type FSV struct{ Dir string }
 
 // Tmpl is a *template.Template built by the evaluated code.
 type Tmpl struct{ T *template.Template }
+
+// Regexp is a *regexp.Regexp compiled by the evaluated code.
+type Regexp struct{ R *regexp.Regexp }
 
 // Exec records one template execution performed by the evaluated code.
 type Exec struct {
@@ -36,6 +46,9 @@ func defaultZero(n *types.Named) (Value, bool) {
 	if n.Obj().Pkg() == nil {
 		return nil, false
 	}
+	if rt, ok := realTypes[n.Obj().Pkg().Path()+"."+n.Obj().Name()]; ok {
+		return &Real{reflect.New(rt).Elem()}, true
+	}
 	switch n.Obj().Pkg().Path() + "." + n.Obj().Name() {
 	case "bytes.Buffer", "strings.Builder":
 		return &Buf{}, true
@@ -51,7 +64,24 @@ func defaultZero(n *types.Named) (Value, bool) {
 
 // goArg converts a Value to the reflect.Value a real Go function expects.
 func goArg(v Value, t reflect.Type) (reflect.Value, bool) {
+	if r, ok := v.(*Real); ok {
+		switch {
+		case r.V.Type().AssignableTo(t):
+			return r.V, true
+		case r.V.CanAddr() && r.V.Addr().Type().AssignableTo(t):
+			return r.V.Addr(), true
+		}
+		return reflect.Value{}, false
+	}
 	switch t.Kind() {
+	case reflect.Func, reflect.Ptr, reflect.Map:
+		if v == nil {
+			return reflect.Zero(t), true
+		}
+	case reflect.Uint, reflect.Uint16, reflect.Uint32, reflect.Uint64, reflect.Int8, reflect.Int16:
+		if i, ok := v.(int); ok {
+			return reflect.ValueOf(i).Convert(t), true
+		}
 	case reflect.String:
 		if s, ok := v.(string); ok {
 			return reflect.ValueOf(s).Convert(t), true
@@ -98,8 +128,15 @@ func fromGo(r reflect.Value) Value {
 	switch r.Kind() {
 	case reflect.String:
 		return r.String()
-	case reflect.Int, reflect.Int64, reflect.Int32, reflect.Uint8:
+	case reflect.Int, reflect.Int64, reflect.Int32, reflect.Uint8, reflect.Int8, reflect.Int16, reflect.Uint, reflect.Uint16, reflect.Uint32, reflect.Uint64:
 		return int(r.Convert(reflect.TypeOf(int(0))).Int())
+	case reflect.Ptr:
+		if r.IsNil() {
+			return nil
+		}
+		return &Real{r}
+	case reflect.Struct:
+		return &Real{r}
 	case reflect.Bool:
 		return r.Bool()
 	case reflect.Slice:
@@ -628,6 +665,24 @@ func installNatives(it *Interp) {
 		if err != nil || !handled {
 			return nil, &EvalError{Msg: "types.TypeString of " + Show(args[0])}
 		}
+		// a type of another package is spelled with what the qualifier answers for that package
+		if pq, ok := f.(PackageQualified); ok && len(args) > 1 && len(vs) == 1 {
+			if pkg := pq.TypePackage(); pkg != nil {
+				if qf, ok := args[1].(*Func); ok && qf != nil {
+					rs, err := it.Call(qf, []Value{pkg})
+					if err != nil {
+						return nil, err
+					}
+					if q, ok := rs[0].(string); ok && q != "" {
+						if name, ok := vs[0].(string); ok {
+							vs = []Value{q + "." + name}
+						}
+					} else if !ok {
+						return nil, &EvalError{Msg: "the qualifier's answer is " + Show(rs[0])}
+					}
+				}
+			}
+		}
 		return vs, nil
 	}
 	n["golang.org/x/tools/go/ast/astutil.Unparen"] = func(it *Interp, args []Value) ([]Value, error) { return []Value{args[0]}, nil }
@@ -642,6 +697,78 @@ func installNatives(it *Interp) {
 	}
 	for _, k := range []string{"(go/ast.Node).Pos", "(go/ast.Node).End", "(go/ast.Expr).Pos", "(go/ast.Expr).End"} {
 		m[k] = nodePos
+	}
+	// a file set the evaluated code makes for itself (to scan or parse text it generated) is the library's own
+	n["go/token.NewFileSet"] = func(it *Interp, args []Value) ([]Value, error) {
+		return []Value{&Real{reflect.ValueOf(token.NewFileSet())}}, nil
+	}
+	// regular expressions over constant patterns: the library's own matcher
+	for _, name := range []string{"regexp.MustCompile", "regexp.Compile", "regexp.MustCompilePOSIX"} {
+		name := name
+		n[name] = func(it *Interp, args []Value) ([]Value, error) {
+			pat, ok := args[0].(string)
+			if !ok {
+				return nil, &EvalError{Msg: name + " of " + Show(args[0])}
+			}
+			r, err := regexp.Compile(pat)
+			if name == "regexp.Compile" {
+				if err != nil {
+					return []Value{nil, &ErrV{Msg: err.Error()}}, nil
+				}
+				return []Value{&Regexp{r}, nil}, nil
+			}
+			if err != nil {
+				return nil, &EvalError{Msg: name + ": " + err.Error()}
+			}
+			return []Value{&Regexp{r}}, nil
+		}
+	}
+	n["regexp.MatchString"] = func(it *Interp, args []Value) ([]Value, error) {
+		pat, ok1 := args[0].(string)
+		str, ok2 := args[1].(string)
+		if !ok1 || !ok2 {
+			if IsUnknown(args[0]) || IsUnknown(args[1]) {
+				return []Value{&Unknown{"match of an unknown string"}, nil}, nil
+			}
+			return nil, &EvalError{Msg: "regexp.MatchString of " + Show(args[0]) + ", " + Show(args[1])}
+		}
+		ok, err := regexp.MatchString(pat, str)
+		if err != nil {
+			return []Value{false, &ErrV{Msg: err.Error()}}, nil
+		}
+		return []Value{ok, nil}, nil
+	}
+	reMethod := func(name string, f func(r *regexp.Regexp, s string) Value) {
+		m["(*regexp.Regexp)."+name] = func(it *Interp, recv Value, args []Value) ([]Value, error) {
+			r, ok := recv.(*Regexp)
+			if !ok || r == nil {
+				return nil, &EvalError{Msg: name + " of " + Show(recv)}
+			}
+			if len(args) > 0 && IsUnknown(args[0]) {
+				return []Value{args[0]}, nil
+			}
+			str, ok := args[0].(string)
+			if !ok {
+				return nil, &EvalError{Msg: name + " of " + Show(args[0])}
+			}
+			return []Value{f(r.R, str)}, nil
+		}
+	}
+	reMethod("MatchString", func(r *regexp.Regexp, s string) Value { return r.MatchString(s) })
+	reMethod("FindString", func(r *regexp.Regexp, s string) Value { return r.FindString(s) })
+	reMethod("FindStringSubmatch", func(r *regexp.Regexp, s string) Value {
+		var out []any
+		for _, x := range r.FindStringSubmatch(s) {
+			out = append(out, x)
+		}
+		return out
+	})
+	m["(*regexp.Regexp).String"] = func(it *Interp, recv Value, args []Value) ([]Value, error) {
+		r, ok := recv.(*Regexp)
+		if !ok || r == nil {
+			return nil, &EvalError{Msg: "String of " + Show(recv)}
+		}
+		return []Value{r.R.String()}, nil
 	}
 	m["(*go/token.FileSet).Position"] = func(it *Interp, recv Value, args []Value) ([]Value, error) {
 		p, ok := args[0].(Pos)
@@ -678,7 +805,31 @@ func installNatives(it *Interp) {
 	// no declaration of the abstract package is visible at an abstract position
 	m["(*go/types.Scope).Innermost"] = func(it *Interp, recv Value, args []Value) ([]Value, error) { return []Value{nil}, nil }
 	m["(*go/types.Scope).LookupParent"] = func(it *Interp, recv Value, args []Value) ([]Value, error) { return []Value{nil, nil}, nil }
-	m["(*go/types.Scope).Lookup"] = func(it *Interp, recv Value, args []Value) ([]Value, error) { return []Value{nil}, nil }
+	m["(*go/types.Scope).Lookup"] = func(it *Interp, recv Value, args []Value) ([]Value, error) {
+		if o, ok := recv.(map[string]any); ok && o["universe"] == true {
+			if name, ok := args[0].(string); ok {
+				return []Value{UniverseObject(name)}, nil
+			}
+			return nil, &EvalError{Msg: "Universe.Lookup of " + Show(args[0])}
+		}
+		return []Value{nil}, nil
+	}
+	// objects of the abstract program's scopes (ScopeObject, UniverseObject)
+	objField := func(key string, dflt Value) func(it *Interp, recv Value, args []Value) ([]Value, error) {
+		return func(it *Interp, recv Value, args []Value) ([]Value, error) {
+			if o, ok := recv.(map[string]any); ok && (o[TypeKey] == "Object" || o[TypeKey] == "PkgName") {
+				if v, ok := o[key]; ok {
+					return []Value{v}, nil
+				}
+				return []Value{dflt}, nil
+			}
+			return nil, &EvalError{Msg: key + " of " + Show(recv)}
+		}
+	}
+	m["(go/types.Object).Parent"] = objField("parent", nil)
+	m["(go/types.Object).Name"] = objField("name", "")
+	m["(go/types.Object).Pkg"] = objField("pkg", nil)
+	m["(go/types.Object).Pos"] = objField("pos", Pos{Valid: true, Line: 1, Col: 1})
 }
 
 // Finalize makes the niladic methods of the data structs visible to text/template: the data objects are maps, so a
